@@ -106,6 +106,16 @@ def impl_map(cfg, code, t, rests, rng, res):
                     res.fail('traverse does not apply the node function exactly once per internal node', case)
                 if abstract(out) != t:
                     res.fail('traverse with identity functions does not rebuild the tree', case)
+                # each function alone: the other one missing means "identity, never called", not "skip both"
+                only_n, only_l = [], []
+                sp.traverse(ls, lambda node: (only_n.append(id(node)), node)[1])
+                sp.traverse(ls, lambda node: (only_n.append(id(node)), node)[1], None)
+                if len(only_n) != 2 * (sp.num_nodes - sp.num_leaves):
+                    res.fail('traverse with a node function and no leaf function does not call it once per internal node', case,
+                             f'{len(only_n)} calls in two runs, {sp.num_nodes - sp.num_leaves} internal nodes')
+                sp.traverse(ls, None, lambda leaf: (only_l.append(id(leaf)), leaf)[1])
+                if only_l != [id(l) for l in ls]:
+                    res.fail('traverse with a leaf function and no node function does not call it on every leaf in order', case)
                 seen = []
                 sp.walk(ls, lambda tp, data, children: (seen.append((tp, len(children))), tuple(children))[1], None)
                 if len(seen) != sp.num_nodes - sp.num_leaves:
